@@ -85,9 +85,17 @@ def run_case(case) -> Outcome:
         out.sample = {"src": src, "args": case["args"]}
         return out
     C = mod.C0
+    sibling = None
     if cls["generic"] and cls.get("targ") is not None:
         try:
+            # another specialisation of the same class is created first and kept alive: specialisations must not be
+            # confused with each other (e.g. by a cache keyed on rendered names)
+            sib = TT.TARG_SIBLING.get(cls["targ"])
+            if sib is not None:
+                sibling = C[TT._targ_type(sib)]
             C = C[TT._targ_type(cls["targ"])]
+            if sibling is not None and sibling is C:
+                out.violate("define", "C05.define/distinct-specialisations-are-the-same-class", f"{cls['targ']} vs {sib}\n{src}")
         except Exception as exc:  # noqa: BLE001
             out.violate("define", f"C05.define/specialisation-raised/{type(exc).__name__}", f"{exc!r}\n{src}")
             return out
@@ -322,6 +330,9 @@ VALUE_POOL = [
     TT.V("list", items=[TT.V("int", x=1), TT.V("int", x=2)]), TT.V("frozenset", items=[TT.V("str", x="x")]), TT.V("set", items=[]),
     TT.V("dict", items=[[TT.V("str", x="x"), TT.V("int", x=1)]]), TT.V("dict", items=[[TT.V("int", x=1), TT.V("str", x="x")]]),
     TT.V("mproxy", items=[[TT.V("str", x="ab"), TT.V("str", x="cd")]]), TT.V("range", n=2), TT.V("deque", items=[TT.V("str", x="q")]),
+    TT.V("list", items=[TT.V("enum", e="Color", m="RED")]), TT.V("tuple", items=[TT.V("str", x="a"), TT.V("str", x="b")]),
+    TT.V("dict", items=[[TT.V("str", x="k"), TT.V("str", x="v")]]), TT.V("dict", items=[[TT.V("str", x="k"), TT.V("enum", e="Color", m="RED")]]),
+    TT.V("set", items=[TT.V("enum", e="Color", m="GREEN")]), TT.V("list", items=[TT.V("int", x=1), TT.V("none")]),
 ]  # fmt: skip
 
 
@@ -344,6 +355,16 @@ def matrix_terms(tier):
     for h in TT.HASHABLE_LEAVES:
         yield TT.T("set", of=h)
         yield TT.T("frozenset", of=h)
+    # unions of equally shaped containers where only a LATER alternative can accept the value and the earlier one fails
+    # deep inside (through a nested union / optional): the failure of an alternative must never escape the union
+    inner_fail = [TT.T("optional", of=TT.T("int")), TT.T("union", alts=[TT.T("int"), TT.T("none")]), TT.T("alias", of=TT.T("union", alts=[TT.T("int"), TT.T("float")]))]
+    for inner in inner_fail:
+        for later in (TT.T("str"), TT.T("enum", e="Color")):
+            yield TT.T("union", alts=[TT.T("seq", of=inner), TT.T("seq", of=later)])
+            yield TT.T("union", alts=[TT.T("tuple_var", of=inner), TT.T("tuple_var", of=later)])
+            yield TT.T("union", alts=[TT.T("map", k=TT.T("str"), v=inner), TT.T("map", k=TT.T("str"), v=later)])
+            yield TT.T("union", alts=[TT.T("optional", of=TT.T("seq", of=inner)), TT.T("seq", of=later)])
+        yield TT.T("union", alts=[TT.T("set", of=TT.T("union", alts=[TT.T("int"), TT.T("str")])), TT.T("set", of=TT.T("enum", e="Color"))])
     if tier == "thorough":
         for a in uniq:
             for b in uniq:
